@@ -204,6 +204,8 @@ func vEvent(s string)                { vState.events = append(vState.events, s) 
 func vBlockCount() int               { return 0 }
 func vBlockDur(i int) int64          { return 0 }
 func vBlockKind(i int) string        { return "" }
+func vGlobalWrites() int             { return 0 }
+func vGlobalWriteSite() string       { return "" }
 func vFreeze(root interface{})       {}
 func vFrozenWrites() int             { return 0 }
 func vGoDepth() int                  { return 0 }
